@@ -4,6 +4,7 @@ from core import (bool_branches, bool_branch, site_effects, is_effectful, is_cal
 from ackmodel import AckModel
 import c11
 
+WITNESSES = ['W6ExecutorUnreachable']
 LEVEL = "proof"
 EXPLANATION = ("Flag-first table over the public API of the cache type (every call that touches cache state is "
                "dominated by the false edge of the shutdown-flag check and the true edge returns the refusal value "
